@@ -162,3 +162,11 @@ def shrink_candidates(case):
 
 def signature(case, obs, msgs):
     return {"det": case["det"]}
+
+
+# ------------------------------------------------------------------ the translated base classes (second tie)
+def obligations(ctx):
+    """detector.py's base-class bookkeeping (counters, reset, drift_state setter) re-translated to Gallina and re-proved to be
+    the generic machine Lifecycle.v on every run."""
+    from .pytrans import obligations_lifecycle
+    yield from obligations_lifecycle(ctx)
